@@ -20,7 +20,8 @@
 (***************************************************************************)
 EXTENDS Naturals, Integers, Sequences, FiniteSets, TLC
 
-SlackMs == 1000   \* scheduling slack granted to wall-clock deadlines on real threads (C17)
+\* traces from real threads (strict = FALSE) carry wall-clock times in microseconds
+SlackUs == 1000000   \* scheduling slack granted to wall-clock deadlines on real threads (C17)
 
 MsgKindsM  == {"tell","ask","tellT","askT","askJ"}   \* askJ = ask_join
 AskKindsM  == {"ask","askT","askJ"}
@@ -49,11 +50,13 @@ NoActM ==
    hdone |-> 0,                    \* handler exits (any outcome)
    slowDone |-> FALSE,             \* some handler demonstrably took >= SlowUs
    lastCnt |-> 0,                  \* last message_count seen
-   tellPending |-> 0]              \* tell handler finished, on_tell_result not seen yet (message id)
+   tellPending |-> 0,              \* tell handler finished, on_tell_result not seen yet (message id)
+   sendErr |-> FALSE]              \* some tell/ask has returned Error::Send (the mailbox was found closed)
 
 NoOpM == [own |-> "", kind |-> "", a |-> "", m |-> 0, d |-> 0, stNow |-> 0,
           done |-> FALSE, res |-> "", dls |-> <<>>, afterJoin |-> FALSE, mustPanic |-> FALSE, jp |-> FALSE, pend |-> FALSE,
           acc |-> FALSE,
+          afterSendErr |-> FALSE,  \* the call began after some tell/ask to the same actor had returned Error::Send
           pair |-> 0]             \* # 0: the same call issued twice in the same situation, on the ActorRef and through a wrapper
 
 NoMsgM == [op |-> 0, a |-> "", handled |-> 0, acc |-> FALSE, preStop |-> FALSE, postStop |-> FALSE,
@@ -140,7 +143,7 @@ OnOpStart(mon, ev) ==
       m1 == UpdO(mon, ev.op, [own |-> ev.own, kind |-> ev.kind, a |-> ev.a, m |-> ev.m, d |-> ev.d,
                               jp |-> IF "jp" \in DOMAIN ev THEN ev.jp ELSE FALSE,
                               pair |-> IF "pair" \in DOMAIN ev THEN ev.pair ELSE 0,
-                              stNow |-> ev.now, afterJoin |-> A.joined, mustPanic |-> cyc])
+                              stNow |-> ev.now, afterJoin |-> A.joined, afterSendErr |-> A.sendErr, mustPanic |-> cyc])
       m2 == IF isMsg
               THEN UpdM(m1, ev.m, [op |-> ev.op, a |-> ev.a, before |-> {x \in MsgsTo(mon, ev.a) : mon.msgs[x].acc},
                                    postStop |-> A.stopRet])
@@ -195,7 +198,7 @@ OnOpEnd(mon, ev) ==
            \cup B(mon.strict /\ ev.res = "timeout" /\ timed /\ A.joined /\ A.joinedNow < dl,
                   "C10", "Timeout although the actor had ended before the deadline")
            \* C17: on real threads (wall clock, milliseconds) a timed operation returns by its deadline plus scheduling slack
-           \cup B(~mon.strict /\ timed /\ ev.now > dl + SlackMs, "C17", "timed operation returned long after its deadline")
+           \cup B(~mon.strict /\ timed /\ ev.now > dl + SlackUs, "C17", "timed operation returned long after its deadline")
            \cup B(~mon.strict /\ ev.res = "other", "C17", "operation failed with an unexpected error")
            \* C13
            \cup B(ev.res = "ok" /\ op.dls # <<>>, "C13", "dead letter recorded for a successful operation")
@@ -215,6 +218,10 @@ OnOpEnd(mon, ev) ==
            \cup B(mon.strict /\ ~op.pend /\ ev.res = "ok" /\ op.kind \in {"tell", "tellT", "stop"} /\ ~A.joined
                   /\ A.lastStrong > 0 /\ A.lastMax > 0 /\ A.lastAvail = 0 /\ ~Has(mon.act, op.own),
                   "C09", "send into a full mailbox completed at once instead of waiting")
+           \* C09: a mailbox never reopens, so a send that began after another one had failed with Send cannot be accepted;
+           \* if it is, the earlier one failed on a mailbox that was merely full (it must wait, not fail)
+           \cup B(isMsg /\ op.afterSendErr /\ (ev.res = "ok" \/ (op.kind \in AskKindsM /\ ev.res \in {"recv", "timeout"} /\ op.acc)),
+                  "C09", "a send failed with Error::Send although the mailbox accepted a later message: it did not wait for a slot")
            \* C06
            \cup B(op.kind = "kill" /\ ev.res # "ok", "C06", "kill() failed")
            \* C11
@@ -239,7 +246,8 @@ OnOpEnd(mon, ev) ==
       m5 == IF op.kind = "kill" /\ Running(A) THEN UpdA(m4, op.a, [killArmed |-> TRUE]) ELSE m4
       m6 == IF Has(mon.act, op.own) /\ ActOf(mon, op.own).nestOp = ev.op
               THEN UpdA(m5, op.own, [nestOp |-> 0]) ELSE m5
-  IN  AddBad(m6, b)
+      m7 == IF isMsg /\ ev.res = "send" THEN UpdA(m6, op.a, [sendErr |-> TRUE]) ELSE m6
+  IN  AddBad(m7, b)
 
 OnHEnter(mon, ev) ==
   LET a == ev.a  A == ActOf(mon, a) IN
